@@ -20,7 +20,9 @@ TRUSTED = ["translator tools/gen_sites.py -> coq/Gen/Sites.v (unit call-site tab
            "Coq's primitive-float specification (FloatAxioms) and Flocq for the lattice theorem (Proofs/FloatTimeProofs.v) when present"]
 ASSUMPTIONS = ["instants on the microsecond lattice within +/-1e5 s, given in each unit as the nearest double",
                "output conversions of a stored lattice instant k us are compared with the exact k/1e3 ms, k us to within 0.3 ns, the bound PROVED for the float model (C09_output_is_stored_times_factor); "
-               "in seconds, and for the integer index of as_units('us'), exactly; tot_length (a float sum of up to 3 durations, each carrying <= 1.5e-11 s) to within 0.5 ns",
+               "in seconds, and for the integer index of as_units('us'), exactly; tot_length (a float sum of up to 8 durations, each carrying <= 1.5e-11 s) to within 0.5 ns",
+               "widened forms: a scalar / array form is generated in a unit only when it holds the instant k/per exactly (e.g. np.float32 for dyadic values, integer dtypes for whole numbers of the unit); forms outside the documented "
+               "signature (numpy scalars other than np.float64, 0-d arrays) may be rejected with a clean Python exception, but never give another result; a TsIndex / IntervalSet argument holds seconds and is only given with unit 's'",
                "the call-site table is syntactic (which arguments meet the unit variable); behaviour is decided by the equivariance sweep of every entry point"]
 
 UNITS = [("s", 1e6), ("ms", 1e3), ("us", 1.0)]
@@ -32,21 +34,26 @@ def _nap():
 
 
 def canon(o):
-    """canonical, exactly comparable form of a result"""
+    """canonical, exactly comparable form of a result (times, values AND their dtype, columns, supports, group rates and metadata)"""
     nap = _nap()
     if isinstance(o, nap.IntervalSet):
-        return ("IntervalSet", np.asarray(o.values).tobytes())
+        return ("IntervalSet", np.asarray(o.values).tobytes(), tuple(map(str, o.metadata_columns)), repr(o.metadata.values.tolist()) if len(o.metadata_columns) else "")
     if isinstance(o, nap.TsGroup):
         return ("TsGroup", tuple((int(k), canon(o[k])) for k in o.keys()), canon(o.time_support), np.asarray(o.rates.values, dtype=float).tobytes(),
                 tuple(map(str, o.metadata_columns)), repr(o.metadata.values.tolist()))
     if isinstance(o, (nap.Ts, nap.Tsd, nap.TsdFrame, nap.TsdTensor)):
         v = np.asarray(o.values).tobytes() if hasattr(o, "values") else b""
+        dt = (str(np.asarray(o.values).dtype), np.asarray(o.values).shape) if hasattr(o, "values") else ()
         cols = tuple(map(str, o.columns)) if hasattr(o, "columns") else ()
-        return (type(o).__name__, np.asarray(o.t).tobytes(), v, cols, canon(o.time_support))
+        return (type(o).__name__, np.asarray(o.t).tobytes(), v, dt, cols, canon(o.time_support))
     if isinstance(o, pd.DataFrame):
-        return ("DataFrame", np.asarray(o.values, dtype=float).tobytes(), np.asarray(o.index, dtype=float).tobytes(), tuple(map(str, o.columns)))
+        return ("DataFrame", np.asarray(o.values, dtype=float).tobytes(), np.asarray(o.index, dtype=float).tobytes(), tuple(map(str, o.columns)), o.shape)
+    if isinstance(o, pd.Series):
+        return ("Series", np.asarray(o.values, dtype=float).tobytes(), np.asarray(o.index, dtype=float).tobytes())
     if isinstance(o, np.ndarray):
-        return ("ndarray", o.shape, np.asarray(o, dtype=float).tobytes())
+        return ("ndarray", o.shape, str(o.dtype), np.asarray(o, dtype=float).tobytes())
+    if isinstance(o, dict):
+        return ("dict",) + tuple((repr(k), canon(v)) for k, v in o.items())
     if isinstance(o, (tuple, list)):
         return tuple(canon(x) for x in o)
     if isinstance(o, slice):
@@ -341,6 +348,950 @@ def check_stored(nap, res, E, d, seed, ds):
     return out
 
 
+# ======================================================================================
+# WIDENED ARGUMENT FORMS (fourth round): the same statement on the less common forms of the inputs.
+# Everything below builds its inputs from integer MICROSECONDS; `PER[u]` turns them into the unit u as the nearest double (k / per), exactly as `cv` above.
+PER = {"s": 1e6, "ms": 1e3, "us": 1.0}
+IPER = {"s": 10**6, "ms": 10**3, "us": 1}
+CLEAN = (TypeError, ValueError, OSError, RuntimeError, AssertionError)      # what "rejects the argument" means for a form outside the documented signature
+REQ = "<required>"
+_INTS = (("np.int64", np.int64), ("np.int32", np.int32), ("np.int16", np.int16), ("np.int8", np.int8),
+         ("np.uint64", np.uint64), ("np.uint32", np.uint32), ("np.uint16", np.uint16), ("np.uint8", np.uint8))
+SCALAR_FORMS = ("float", "int", "np.float64", "np.float32", "0d") + tuple(n for n, _ in _INTS)
+DOCUMENTED_SCALARS = ("float", "int", "float64")            # type names: Python float / int (np.float64 IS a Python float); every signature documents these
+STYLES = ("kw", "kw_all", "pos", "mixed", "twice")
+WD_ORIGINS = (0, -2_000_000, -50_000_000, 1_000_000_000, 99_990_000_000)      # microseconds: 0, straddling 0, negative, 1e3 s, just below 1e5 s
+
+
+def _cd(ks):
+    """canonical doubles (seconds) of integer microseconds"""
+    return (np.asarray(list(ks), dtype=np.float64) * 1000) / 1e9
+
+
+def scalar_form(k, u, form):
+    """the scalar denoting k microseconds in unit u in the given form, or None when that form cannot hold the double k/per exactly"""
+    x = k / PER[u]
+    if form == "float":
+        return float(x)
+    if form == "np.float64":
+        return np.float64(x)
+    if form == "0d":
+        return np.array(x)
+    if form == "np.float32":
+        return np.float32(x) if float(np.float32(x)) == x else None
+    if k % IPER[u]:
+        return None
+    n = k // IPER[u]
+    if form == "int":
+        return int(n)
+    dt = dict(_INTS)[form]
+    return dt(n) if np.iinfo(dt).min <= n <= np.iinfo(dt).max else None
+
+
+ARRAY_FORMS = ("ndarray", "list", "tuple", "list_int", "list_np", "series", "index", "float32", "float16", "int64", "int32", "int16", "uint64", "uint32", "uint16", "uint8",
+               "strided", "readonly", "fortran_col", "object", "tsindex", "t_attr")
+
+
+def array_form(nap, ks, u, form):
+    """the 1-d container denoting the instants ks (microseconds, in the given order) in unit u in the given form; None when the form cannot hold them exactly"""
+    ks = list(ks)
+    x = np.asarray(ks, dtype=np.float64) / PER[u]
+    if form == "ndarray":
+        return x
+    if form == "list":
+        return x.tolist()
+    if form == "tuple":
+        return tuple(x.tolist())
+    if form == "list_np":
+        return list(x)
+    if form == "series":
+        return pd.Series(x)
+    if form == "index":
+        return pd.Index(x)
+    if form == "object":
+        return x.astype(object)
+    if form in ("float32", "float16"):
+        y = x.astype(form)
+        return y if np.array_equal(y.astype(np.float64), x) else None
+    if form == "strided":
+        big = np.full(2 * len(x) + 1, 12345.678)
+        big[::2][:len(x)] = x
+        return big[::2][:len(x)]
+    if form == "fortran_col":
+        big = np.asfortranarray(np.stack([x, x + 1.0, x - 7.0], 0))
+        return big[0]
+    if form == "readonly":
+        y = x.copy()
+        y.setflags(write=False)
+        return y
+    if form in ("tsindex", "t_attr"):
+        # another object's index / .t: seconds by construction, sorted by construction
+        if u != "s" or ks != sorted(ks) or not len(ks):
+            return None
+        o = nap.Ts(t=_cd(ks))
+        return o.index if form == "tsindex" else o.t
+    if any(k % IPER[u] for k in ks):
+        return None
+    ns = [k // IPER[u] for k in ks]
+    if form == "list_int":
+        return [int(n) for n in ns]
+    dt = np.dtype(form)
+    if len(ns) and not (np.iinfo(dt).min <= min(ns) and max(ns) <= np.iinfo(dt).max):
+        return None
+    return np.asarray(ns, dtype=dt)
+
+
+_WD_FLAGS = [(False, False)]          # the (suppress_conversion_warnings, suppress_time_index_sorting_warnings) setting under which the calls under test run
+
+
+def _outcome(f, flags=None):
+    """canonical result or ("EXC", type name); runs under the data set's suppress_* setting unless `flags` is given (references: both flags off)"""
+    cfg = _nap().nap_config
+    f1, f2 = _WD_FLAGS[0] if flags is None else flags
+    cfg.suppress_conversion_warnings, cfg.suppress_time_index_sorting_warnings = f1, f2
+    try:
+        return canon(f()), None
+    except Exception as ex:           # noqa: BLE001
+        return ("EXC", type(ex).__name__), ex
+    finally:
+        cfg.suppress_conversion_warnings, cfg.suppress_time_index_sorting_warnings = False, False
+
+
+def _is_exc(o):
+    return isinstance(o, tuple) and len(o) == 2 and o[0] == "EXC"
+
+
+def _tname(v):
+    return type(v).__name__ + ("0d" if isinstance(v, np.ndarray) else "")
+
+
+def wd_invoke(fn, sig, given, style):
+    """call fn with the `given` arguments (name -> value) in one of the call styles; `sig` = the DOCUMENTED ordered parameters [(name, default)]"""
+    names = [n for n, _ in sig]
+    if style in ("kw", "twice"):
+        return fn(**given)
+    if style == "kw_all":             # every parameter by keyword, the documented defaults (None included) spelled out, in reverse order
+        full = {n: given.get(n, dflt) for n, dflt in sig if n in given or dflt is not REQ}
+        return fn(**dict(reversed(list(full.items()))))
+    last = max(names.index(n) for n in given)
+    if style == "pos":                # positional up to the last given parameter, the documented defaults spelled out on the way
+        return fn(*[given.get(n, dflt) for n, dflt in sig[:last + 1]])
+    if style == "mixed":              # required parameters positional, the rest by keyword
+        nreq = len([1 for _, dflt in sig if dflt is REQ])
+        return fn(*[given[n] for n in names[:nreq]], **{n: v for n, v in given.items() if n not in names[:nreq]})
+    raise ValueError(style)
+
+
+# ---- receivers --------------------------------------------------------------------------
+def wd_data(nap, rng, tmpdir):
+    """one data set: instants (integer microseconds) and every receiver / argument object built from them in seconds"""
+    origin = rng.choice(WD_ORIGINS)
+    offs = set(rng.sample(range(0, 4_000_001, 250_000), 5)) | set(rng.sample(range(0, 4_000_001, 1_000_000), 2)) | set(rng.sample(range(1, 4_000_000), 5))
+    t = sorted(origin + o for o in offs)
+    n = len(t)
+    D = {"origin": origin, "t": t}
+    bounds = sorted(set(rng.sample(range(-500_000, 4_500_001, 250_000), 4)) | {t[2] - origin, t[-3] - origin})           # two bounds ON samples
+    bounds = bounds[:len(bounds) - len(bounds) % 2]                                                                     # 2 or 3 intervals
+    s, e = [origin + b for b in bounds[0::2]], [origin + b for b in bounds[1::2]]
+    D["s"], D["e"] = s, e
+    R = {}
+    iset = lambda ss, ee, **kw: nap.IntervalSet(start=_cd(ss), end=_cd(ee), **kw)
+    wide = iset([origin - 10**6], [origin + 6 * 10**6])
+    D["wide_us"] = [(origin - 10**6, origin + 6 * 10**6)]
+    R["ep"] = iset(s, e)
+    R["ep_wide"] = wide
+    R["ep_empty"] = iset([], [])
+    R["ep_one"] = iset(s[:1], e[-1:])
+    many = sorted(origin + o for o in rng.sample(range(-500_000, 4_500_000, 50_000), 16))
+    R["ep_many"] = iset(many[0::2], many[1::2])
+    R["ep_meta"] = iset(s, e, metadata={"lab": ["x", "y", "x"][:len(s)], "w": [3, 1, 2][:len(s)]})
+    R["ep_sparse"] = iset([t[0] - 10, t[3] + 1, t[5]], [t[0] + 10, t[4] - 1, t[5] + 1])              # intervals holding one, zero, one sample
+    R["ep_touch"] = iset([t[1], t[4]], [t[3], t[-1]])                                                 # every bound on a sample
+    R["ep_sliced"] = R["ep"][[0, len(s) - 1]]
+    R["ep_setop"] = R["ep"].union(R["ep_sparse"]).intersect(wide)
+    p = os.path.join(tmpdir, "ep.npz")
+    R["ep_meta"].save(p)
+    R["ep_loaded"] = nap.load_file(p)
+    EPS = ["ep", "ep_empty", "ep_one", "ep_many", "ep_meta", "ep_sparse", "ep_touch", "ep_sliced", "ep_setop", "ep_loaded", "ep_wide"]
+
+    ts_ = lambda ks, **kw: nap.Ts(t=_cd(ks), **kw)
+    v = np.asarray([rng.randrange(0, 100) for _ in range(n)], dtype=np.float64)
+    R["ts"] = ts_(t, time_support=wide)
+    R["ts_dup"] = ts_(sorted(t + [t[2], t[2], t[-1]]), time_support=wide)
+    R["ts_one"] = ts_(t[3:4], time_support=wide)
+    R["ts_same"] = ts_([t[3]] * 4, time_support=wide)
+    R["ts_empty"] = ts_([], time_support=wide)
+    R["ts_restricted"] = R["ts"].restrict(R["ep"])
+    R["ts_default"] = ts_(t)
+    R["ts_sliced"] = R["ts"][1:-1]
+    R["ts_from_tsd"] = nap.Ts(t=nap.Tsd(t=_cd(t), d=v).index, time_support=wide)
+    p = os.path.join(tmpdir, "ts.npz")
+    R["ts"].save(p)
+    R["ts_loaded"] = nap.load_file(p)
+    TSS = ["ts", "ts_dup", "ts_one", "ts_same", "ts_empty", "ts_restricted", "ts_default", "ts_sliced", "ts_from_tsd", "ts_loaded"]
+
+    tsd_ = lambda ks, d, **kw: nap.Tsd(t=_cd(ks), d=d, **kw)
+    R["tsd"] = tsd_(t, v, time_support=wide)
+    for dt in ("float32", "int64", "int16", "uint8", "bool"):            # (every further dtype costs one numba specialisation per kernel; the constructors below take all of them)
+        R["tsd_" + dt] = tsd_(t, v.astype(dt), time_support=wide)
+    sp = v.copy()
+    sp[[1, 4, 6]] = [np.nan, np.inf, -np.inf]
+    R["tsd_special"] = tsd_(t, sp, time_support=wide)
+    R["tsd_const"] = tsd_(t, np.full(n, 7.0), time_support=wide)
+    R["tsd_zero"] = tsd_(t, np.zeros(n), time_support=wide)
+    R["tsd_empty"] = tsd_([], np.array([]), time_support=wide)
+    R["tsd_one"] = tsd_(t[3:4], v[3:4], time_support=wide)
+    R["tsd_same"] = tsd_([t[3]] * 3, v[:3], time_support=wide)
+    R["tsd_dup"] = tsd_(sorted(t + [t[2], t[-1]]), np.arange(n + 2.0), time_support=wide)
+    R["tsd_sliced"] = R["tsd"][2:-1]
+    R["tsd_fancy"] = R["tsd"][[0, 2, 3, n - 1]]
+    R["tsd_get"] = R["tsd"].get(float(_cd([t[1]])[0]), float(_cd([t[-2]])[0]))
+    R["tsd_arith"] = R["tsd"] * 2 + 1
+    R["tsd_npfunc"] = np.sqrt(np.abs(R["tsd"] - 50))
+    R["tsd_restricted"] = R["tsd"].restrict(R["ep"])
+    R["tsd_default"] = tsd_(t, v)
+    R["tsd_shared"] = nap.Tsd(t=_cd(t), d=_cd(t), time_support=wide)
+    a = _cd(t)
+    R["tsd_samebuf"] = nap.Tsd(t=a, d=a, time_support=wide)                                         # t and d are the same array
+    p = os.path.join(tmpdir, "tsd.npz")
+    R["tsd"].save(p)
+    R["tsd_loaded"] = nap.load_file(p)
+    TSDS = [k for k in R if k.startswith("tsd")]
+
+    v2 = np.asarray([[rng.randrange(0, 100) for _ in range(2)] for _ in range(n)], dtype=np.float64)
+    fr_ = lambda ks, d, **kw: nap.TsdFrame(t=_cd(ks), d=d, **kw)
+    R["frame"] = fr_(t, v2, time_support=wide)
+    R["frame_str"] = fr_(t, v2, time_support=wide, columns=["b", "a"])
+    R["frame_int"] = fr_(t, v2, time_support=wide, columns=[7, 3])
+    R["frame_int16"] = fr_(t, v2.astype(np.int16), time_support=wide, columns=[7, 3])
+    R["frame_uint8"] = fr_(t, v2.astype(np.uint8), time_support=wide)
+    sp2 = v2.copy()
+    sp2[1, 0], sp2[4, 0], sp2[4, 1], sp2[6, 1] = np.nan, np.inf, -np.inf, np.inf
+    R["frame_special"] = fr_(t, sp2, time_support=wide, columns=["b", "a"])
+    R["frame_empty"] = fr_([], np.empty((0, 2)), time_support=wide)
+    R["frame_meta"] = fr_(t, v2, time_support=wide, columns=["b", "a"], metadata={"area": ["p", "q"]})
+    R["frame_onecol"] = R["frame_str"].loc[["a"]]
+    R["frame_restricted"] = R["frame_int"].restrict(R["ep"])
+    R["frame_default"] = fr_(t, v2)
+    p = os.path.join(tmpdir, "frame.npz")
+    R["frame_str"].save(p)
+    R["frame_loaded"] = nap.load_file(p)
+    FRAMES = [k for k in R if k.startswith("frame")]
+
+    v3 = np.arange(4.0 * n).reshape(n, 2, 2)
+    R["tensor"] = nap.TsdTensor(t=_cd(t), d=v3, time_support=wide)
+    R["tensor_uint8"] = nap.TsdTensor(t=_cd(t), d=v3.astype(np.uint8), time_support=wide)
+    R["tensor_empty"] = nap.TsdTensor(t=_cd([]), d=np.empty((0, 2, 2)), time_support=wide)
+    R["tensor_restricted"] = R["tensor"].restrict(R["ep"])
+    TENSORS = [k for k in R if k.startswith("tensor")]
+
+    # regularly sampled signals (200 Hz, 2 s)
+    reg_t = [origin + 5000 * k for k in range(400)]
+    sig = np.round(50 * np.sin(np.arange(400) / 7.0))
+    reg_ = lambda d, **kw: nap.Tsd(t=_cd(reg_t), d=d, **kw)
+    R["reg"] = reg_(sig, time_support=wide)
+    R["reg_own"] = reg_(sig)
+    R["reg_float32"] = reg_(sig.astype(np.float32), time_support=wide)
+    R["reg_int16"] = reg_(sig.astype(np.int16), time_support=wide)                                    # integer signal, non-integer kernel
+    R["reg_int64"] = reg_(sig.astype(np.int64), time_support=wide)
+    R["reg_uint8"] = reg_((sig + 60).astype(np.uint8), time_support=wide)
+    sps = sig.copy()
+    sps[[20, 100, 250]] = [np.nan, np.inf, -np.inf]
+    R["reg_special"] = reg_(sps, time_support=wide)
+    R["reg_const"] = reg_(np.full(400, 3.0), time_support=wide)
+    two = iset([reg_t[0], reg_t[220]], [reg_t[180], reg_t[-1]])
+    R["reg_two"] = R["reg"].restrict(two)
+    R["regf"] = nap.TsdFrame(t=_cd(reg_t), d=np.stack([sig, np.round(30 * np.cos(np.arange(400) / 5.0))], 1), time_support=wide, columns=["b", "a"])
+    R["regf_own"] = nap.TsdFrame(t=_cd(reg_t), d=np.stack([sig, np.round(30 * np.cos(np.arange(400) / 5.0))], 1), columns=[7, 3])
+    R["regf_int16"] = nap.TsdFrame(t=_cd(reg_t), d=np.stack([sig, sig[::-1]], 1).astype(np.int16), time_support=wide)
+    R["regt"] = nap.TsdTensor(t=_cd(reg_t), d=np.stack([sig, -sig, sig + 1, sig * 2], 1).reshape(400, 2, 2), time_support=wide)
+    R["reg_arith"] = R["reg"] * 0.5 - 1
+    p = os.path.join(tmpdir, "reg.npz")
+    R["reg"].save(p)
+    R["reg_loaded"] = nap.load_file(p)
+    R["ep_reg"] = iset([reg_t[0]], [reg_t[-1]])
+    R["ep_reg_two"] = two
+    REGS1 = ["reg", "reg_float32", "reg_int16", "reg_int64", "reg_uint8", "reg_special", "reg_const", "reg_two", "reg_arith", "reg_loaded"]
+    REGS = REGS1 + ["regf", "regf_int16", "regt"]
+
+    # groups
+    m1, m4 = t, t[::2]
+    g_ = lambda data, **kw: nap.TsGroup(data, **kw)
+    R["grp"] = g_({1: ts_(m1), 4: ts_(m4)}, time_support=wide)
+    R["grp_str"] = g_({"12": ts_(m1), "3": ts_(m4)}, time_support=wide)                                # multi-digit string keys, stored as 3, 12
+    R["grp_float"] = g_({2.0: ts_(m1), 9.0: ts_(m4)}, time_support=wide)
+    R["grp_unsorted"] = g_({7: ts_(m1), 2: ts_(m4), 5: ts_(t[1::3])}, time_support=wide)
+    R["grp_empty"] = g_({}, time_support=wide)
+    R["grp_emptymember"] = g_({2: ts_([]), 5: ts_(m1), 6: ts_([])}, time_support=wide)
+    R["grp_allempty"] = g_({2: ts_([]), 5: ts_([])}, time_support=wide)
+    R["grp_one"] = g_({3: ts_(m1)}, time_support=wide)
+    R["grp_bypass"] = g_({1: ts_(m1, time_support=wide), 4: ts_(m4, time_support=wide)}, time_support=wide, bypass_check=True)
+    R["grp_meta"] = g_({1: ts_(m1), 4: ts_(m4)}, time_support=wide, metadata={"lab": ["x", "y"], "w": [3.5, 1.5]})
+    R["grp_list"] = g_([ts_(m1), ts_(m4)], time_support=wide)
+    R["grp_tsd"] = g_({1: tsd_(m1, v), 4: tsd_(m4, v[::2])}, time_support=wide)
+    R["grp_default"] = g_({1: ts_(m1), 4: ts_(m4)})
+    R["grp_sliced"] = R["grp_unsorted"][[7, 5]]
+    R["grp_restricted"] = R["grp"].restrict(R["ep"])
+    R["grp_dup"] = g_({1: ts_(sorted(m1 + [m1[2], m1[2]])), 4: ts_([m4[0]] * 3)}, time_support=wide)
+    p = os.path.join(tmpdir, "grp.npz")
+    R["grp_meta"].save(p)
+    R["grp_loaded"] = nap.load_file(p)
+    GRPS = [k for k in R if k.startswith("grp")]
+    D.update(R=R, EPS=EPS, TSS=TSS, TSDS=TSDS, FRAMES=FRAMES, TENSORS=TENSORS, REGS=REGS, REGS1=REGS1, GRPS=GRPS, v=v, v2=v2, v3=v3, reg_t=reg_t)
+    return D
+
+
+# ---- the unit-accepting operations, their DOCUMENTED parameter order, and the option sets ----
+def wd_ops(nap, D, rng):
+    """op -> dict(fn(recv) -> callable, sig, unit, tpar (time-valued parameters), recv (receiver names), opts (name -> given arguments, times in integer us))"""
+    R, t, o = D["R"], D["t"], D["origin"]
+    nan = np.nan
+    bins = [250_000, 500_000, 1_000_000, 2_000_000, 333_333, 100_000]
+    b = lambda: rng.choice(bins)
+    ep = lambda: R[rng.choice(D["EPS"])]
+    gaps = sorted({t[i + 1] - t[i] for i in range(len(t) - 1)})
+    durs = [e_ - s_ for s_, e_ in zip(D["s"], D["e"])]
+    egaps = [D["s"][i + 1] - D["e"][i] for i in range(len(D["s"]) - 1)]
+    inner = lambda: o + rng.choice([0, 250_000, 1_000_000, 1_500_000, 2_000_000, 3_000_000, 4_000_000, -250_000, 123_457])
+    pair = lambda: tuple(sorted((inner(), inner())))
+    TS_ALL = D["TSS"] + D["TSDS"] + D["FRAMES"] + D["TENSORS"]
+    TSD_ALL = D["TSDS"] + D["FRAMES"] + D["TENSORS"]
+    OPS = {}
+
+    def count_opts():
+        return {"b": {"bin_size": b()}, "b_ep": {"bin_size": b(), "ep": ep()}, "b_ep_int32": {"bin_size": b(), "ep": ep(), "dtype": np.int32}, "b_float": {"bin_size": b(), "dtype": float},
+                "b_ep_strdtype": {"bin_size": b(), "ep": ep(), "dtype": "int16"}, "b_ep_uint8": {"bin_size": b(), "ep": R["ep_touch"], "dtype": np.uint8}, "b_whole": {"bin_size": 1_000_000, "ep": R["ep_wide"]}}
+    OPS["count"] = dict(fn=lambda r: r.count, sig=[("bin_size", None), ("ep", None), ("time_units", "s"), ("dtype", None)], unit="time_units", tpar=("bin_size",), recv=TS_ALL, opts=count_opts())
+    OPS["TsGroup.count"] = dict(fn=lambda r: r.count, sig=[("bin_size", None), ("ep", None), ("time_units", "s"), ("dtype", None)], unit="time_units", tpar=("bin_size",), recv=D["GRPS"], opts=count_opts())
+    OPS["bin_average"] = dict(fn=lambda r: r.bin_average, sig=[("bin_size", REQ), ("ep", None), ("time_units", "s")], unit="time_units", tpar=("bin_size",), recv=TSD_ALL + D["REGS"],
+                              opts={"b": {"bin_size": b()}, "b_ep": {"bin_size": b(), "ep": ep()}, "b_touch": {"bin_size": b(), "ep": R["ep_touch"]}, "b_whole": {"bin_size": 1_000_000, "ep": R["ep_wide"]}})
+    on = lambda: rng.choice(t)
+    get_opts = lambda: {"closest": {"start": inner()}, "closest_on_sample": {"start": on()}, "range": dict(zip(("start", "end"), pair())), "range_on_samples": dict(zip(("start", "end"), sorted((on(), on())))),
+                        "point": {"start": t[3], "end": t[3]}, "outside_left": {"start": o - 900_000, "end": o - 500_000}, "outside_right": {"start": o + 4_500_000, "end": o + 5_000_000},
+                        "whole": {"start": o, "end": o + 4_000_000}, "closest_far": {"start": o + 5_000_000}}
+    OPS["get"] = dict(fn=lambda r: r.get, sig=[("start", REQ), ("end", None), ("time_units", "s")], unit="time_units", tpar=("start", "end"), recv=TS_ALL, opts=get_opts())
+    OPS["get_slice"] = dict(fn=lambda r: r.get_slice, sig=[("start", REQ), ("end", None), ("time_unit", "s")], unit="time_unit", tpar=("start", "end"), recv=TS_ALL, opts=get_opts())
+    OPS["TsGroup.get"] = dict(fn=lambda r: r.get, sig=[("start", REQ), ("end", None), ("time_units", "s")], unit="time_units", tpar=("start", "end"), recv=D["GRPS"], opts=get_opts())
+    OPS["find_support"] = dict(fn=lambda r: r.find_support, sig=[("min_gap", REQ), ("time_units", "s")], unit="time_units", tpar=("min_gap",), recv=TS_ALL + ["reg", "reg_two"],
+                               opts={"gap": {"min_gap": rng.choice([250_000, 500_000, 1_000_000])}, "gap_equal": {"min_gap": rng.choice(gaps)}, "gap_equal_min": {"min_gap": gaps[0]}, "gap_max": {"min_gap": gaps[-1]},
+                                     "gap_5ms": {"min_gap": 5000}})
+    OPS["smooth"] = dict(fn=lambda r: r.smooth, sig=[("std", REQ), ("windowsize", None), ("time_units", "s"), ("size_factor", 100), ("norm", True)], unit="time_units", tpar=("std", "windowsize"), recv=D["REGS"],
+                         opts={"std": {"std": 10_000}, "std_w": {"std": 25_000, "windowsize": 150_000}, "std_nonorm": {"std": 10_000, "norm": False}, "std_factor": {"std": 25_000, "size_factor": 10},
+                               "all": {"std": 15_000, "windowsize": 100_000, "size_factor": 7, "norm": False}, "std_w_whole": {"std": 1_000_000, "windowsize": 2_000_000, "norm": False}})
+    thr = lambda: {"thr": {"threshold": rng.choice([250_000, 500_000, 1_000_000, 1_234_567])}, "thr_equal": {"threshold": rng.choice(durs)}, "thr_gap_equal": {"threshold": rng.choice(egaps)}, "thr_tiny": {"threshold": 1},
+                   "thr_huge": {"threshold": 100_000_000}}
+    ISETS = [k for k in D["EPS"]]
+    for nm, meth in (("drop_short", "drop_short_intervals"), ("drop_long", "drop_long_intervals"), ("merge_close", "merge_close_intervals")):
+        OPS[nm] = dict(fn=(lambda meth: (lambda r: getattr(r, meth)))(meth), sig=[("threshold", REQ), ("time_units", "s")], unit="time_units", tpar=("threshold",), recv=ISETS, opts=thr())
+    OPS["split"] = dict(fn=lambda r: r.split, sig=[("interval_size", REQ), ("time_units", "s")], unit="time_units", tpar=("interval_size",), recv=ISETS,
+                        opts={"size": {"interval_size": b()}, "size_equal": {"interval_size": rng.choice(durs)}, "size_quarter": {"interval_size": 250_000}, "size_whole": {"interval_size": 1_000_000}})
+    tc_opts = lambda: {"b": {"ep": R["ep"], "bin_size": b()}, "end": {"ep": R["ep"], "bin_size": b(), "align": "end"}, "pad0": {"ep": ep(), "bin_size": b(), "padding_value": 0.0},
+                       "end_pad": {"ep": R["ep_touch"], "bin_size": b(), "align": "end", "padding_value": -1}, "one": {"ep": R["ep_one"], "bin_size": 1_000_000}, "many": {"ep": R["ep_many"], "bin_size": 250_000, "align": "end"}}
+    tc_sig = [("ep", REQ), ("bin_size", REQ), ("align", "start"), ("padding_value", nan), ("time_unit", "s")]
+    OPS["trial_count"] = dict(fn=lambda r: r.trial_count, sig=tc_sig, unit="time_unit", tpar=("bin_size",), recv=D["TSS"], opts=tc_opts())
+    OPS["TsGroup.trial_count"] = dict(fn=lambda r: r.trial_count, sig=tc_sig, unit="time_unit", tpar=("bin_size",), recv=D["GRPS"], opts=tc_opts())
+    OPS["build_tensor"] = dict(fn=lambda r: nap.build_tensor, first="input", sig=[("input", REQ), ("ep", REQ), ("bin_size", None), ("align", "start"), ("padding_value", nan), ("time_unit", "s")], unit="time_unit",
+                               tpar=("bin_size",), recv=D["GRPS"] + D["TSS"], opts=tc_opts())
+    cw = lambda: rng.choice([(50_000, 500_000), (100_000, 1_000_000), (250_000, 1_000_000), (500_000, 2_000_000)])
+    cc = lambda **kw: dict(zip(("binsize", "windowsize"), cw()), **kw)
+    OPS["autocorr"] = dict(fn=lambda r: nap.compute_autocorrelogram, first="group", sig=[("group", REQ), ("binsize", REQ), ("windowsize", REQ), ("ep", None), ("norm", True), ("time_units", "s")], unit="time_units",
+                           tpar=("binsize", "windowsize"), recv=D["GRPS"], opts={"bw": cc(), "ep": cc(ep=R["ep"]), "nonorm": cc(norm=False), "ep_nonorm": cc(ep=R["ep_touch"], norm=False)})
+    OPS["crosscorr"] = dict(fn=lambda r: nap.compute_crosscorrelogram, first="group", sig=[("group", REQ), ("binsize", REQ), ("windowsize", REQ), ("ep", None), ("norm", True), ("time_units", "s"), ("reverse", False)],
+                            unit="time_units", tpar=("binsize", "windowsize"), recv=D["GRPS"] + ["PAIR_tuple", "PAIR_list"],
+                            opts={"bw": cc(), "ep": cc(ep=R["ep"]), "nonorm": cc(norm=False), "reverse": cc(reverse=True), "all": cc(ep=R["ep_touch"], norm=False, reverse=True)})
+    R["PAIR_tuple"] = (R["grp"], R["grp_unsorted"])
+    R["PAIR_list"] = [R["grp_str"], R["grp_emptymember"]]
+    ev = lambda: R[rng.choice(["ts", "ts_dup", "tsd", "ts_restricted", "ts_one", "ts_empty"])]
+    OPS["eventcorr"] = dict(fn=lambda r: nap.compute_eventcorrelogram, first="group", sig=[("group", REQ), ("event", REQ), ("binsize", REQ), ("windowsize", REQ), ("ep", None), ("norm", True), ("time_units", "s")],
+                            unit="time_units", tpar=("binsize", "windowsize"), recv=D["GRPS"], opts={"bw": cc(event=ev()), "ep": cc(event=ev(), ep=R["ep"]), "nonorm": cc(event=ev(), norm=False), "ep_nonorm": cc(event=ev(), ep=R["ep_wide"], norm=False)})
+    ref = lambda: R[rng.choice(["ts_sliced", "ts_one", "tsd_fancy", "ts_restricted", "frame_onecol", "ts_empty"])]
+    dgap = t[5] - t[2]
+    mm = lambda: {"scalar": {"tref": ref(), "minmax": rng.choice([250_000, 500_000, 1_000_000])}, "tuple": {"tref": ref(), "minmax": (-rng.choice([250_000, 500_000]), rng.choice([250_000, 1_000_000]))},
+                  "tuple_pos": {"tref": ref(), "minmax": (500_000, 1_000_000)}, "edge": {"tref": R["ts"][2:3], "minmax": (dgap, dgap)}, "edge_scalar": {"tref": R["ts"][5:6], "minmax": dgap}, "uneven": {"tref": ref(), "minmax": (-100_000, 2_000_000)}}
+    OPS["perievent"] = dict(fn=lambda r: nap.compute_perievent, first="timestamps", sig=[("timestamps", REQ), ("tref", REQ), ("minmax", REQ), ("time_unit", "s")], unit="time_unit", tpar=("minmax",),
+                            recv=["ts", "ts_dup", "ts_empty", "ts_one", "tsd", "tsd_uint8", "tsd_special", "frame_str", "tensor", "ts_restricted", "ts_loaded"] + D["GRPS"], opts=mm())
+    pc = lambda: {"scalar": {"tref": ref(), "minmax": rng.choice([20_000, 50_000, 1_000_000])}, "tuple": {"tref": ref(), "minmax": (-20_000, 50_000)}, "tuple_pos": {"tref": ref(), "minmax": (25_000, 25_000)},
+                  "ep": {"tref": ref(), "minmax": (20_000, 20_000), "ep": R["ep"]}, "ep_scalar": {"tref": R["ts"], "minmax": 50_000, "ep": R["ep_reg_two"]}, "whole": {"tref": ref(), "minmax": (1_000_000, 1_000_000), "ep": R["ep_wide"]}}
+    OPS["perievent_cont"] = dict(fn=lambda r: nap.compute_perievent_continuous, first="timeseries", sig=[("timeseries", REQ), ("tref", REQ), ("minmax", REQ), ("ep", None), ("time_unit", "s")], unit="time_unit", tpar=("minmax",),
+                                 recv=D["REGS"] + ["tsd", "tsd_one", "tsd_same", "tsd_empty"], opts=pc())
+    feat = lambda: R[rng.choice(D["REGS"])]
+    OPS["eta"] = dict(fn=lambda r: nap.compute_event_trigger_average, first="group", sig=[("group", REQ), ("feature", REQ), ("binsize", REQ), ("windowsize", REQ), ("ep", None), ("time_unit", "s")], unit="time_unit",
+                      tpar=("binsize", "windowsize"), recv=D["GRPS"],
+                      opts={"scalar": {"feature": feat(), "binsize": 5000, "windowsize": rng.choice([20_000, 50_000])}, "tuple": {"feature": feat(), "binsize": 5000, "windowsize": (20_000, 40_000)},
+                            "ep": {"feature": feat(), "binsize": 10_000, "windowsize": (20_000, 20_000), "ep": R["ep"]}, "ep_scalar": {"feature": feat(), "binsize": 5000, "windowsize": 25_000, "ep": R["ep_reg_two"]},
+                            "coarse": {"feature": feat(), "binsize": 250_000, "windowsize": (250_000, 500_000), "ep": R["ep_wide"]}})
+
+    def tc1(g):
+        keys = list(g.keys()) if not isinstance(g, nap.TsdFrame) else list(g.columns)
+        vals = np.array([[1.0, 3.0, 2.5], [5.0, 2.0, 0.5], [2.0, 7.0, 1.5]])
+        return pd.DataFrame(vals[:, :len(keys)] if len(keys) <= 3 else np.ones((3, len(keys))), index=np.array([10.0, 50.0, 90.0]), columns=keys)
+
+    def tc2(g):
+        keys = list(g.keys()) if not isinstance(g, nap.TsdFrame) else list(g.columns)
+        return {k: np.array([[1.0, 3.0], [5.0, 2.0]]) + i for i, k in enumerate(keys)}
+    D["tc1"], D["tc2"] = tc1, tc2
+    R["CNT_frame"] = R["grp"].count(0.05, R["ep_wide"])
+    R["CNT_frame_unsorted"] = R["grp_unsorted"].count(0.05, R["ep_wide"], dtype=np.int16)
+    R["DICT_ts"] = {1: R["grp"][1], 4: R["grp"][4]}
+    R["DICT_arrays"] = {1: R["grp"][1], 4: R["tsd"]}
+    DEC = [g for g in D["GRPS"] if g not in ("grp_empty",)] + ["CNT_frame", "CNT_frame_unsorted", "DICT_ts", "DICT_arrays"]
+    db = lambda: rng.choice([200_000, 250_000, 500_000, 1_000_000])
+    OPS["decode_1d"] = dict(fn=lambda r: nap.decode_1d, first="group", tc="tuning_curves", sig=[("tuning_curves", REQ), ("group", REQ), ("ep", REQ), ("bin_size", REQ), ("time_units", "s"), ("feature", None)], unit="time_units",
+                            tpar=("bin_size",), recv=DEC, opts={"b": {"ep": R["ep"], "bin_size": db()}, "feature": {"ep": R["ep"], "bin_size": db(), "feature": R["tsd"]}, "wide": {"ep": R["ep_wide"], "bin_size": db()},
+                                                                "touch_feature": {"ep": R["ep_touch"], "bin_size": db(), "feature": R["tsd_restricted"]}})
+    xy = (np.array([0.5, 1.5]), np.array([0.25, 0.75]))
+    OPS["decode_2d"] = dict(fn=lambda r: nap.decode_2d, first="group", tc="tuning_curves", sig=[("tuning_curves", REQ), ("group", REQ), ("ep", REQ), ("bin_size", REQ), ("xy", REQ), ("time_units", "s"), ("features", None)],
+                            unit="time_units", tpar=("bin_size",), recv=DEC, opts={"b": {"ep": R["ep"], "bin_size": db(), "xy": xy}, "features": {"ep": R["ep"], "bin_size": db(), "xy": xy, "features": R["frame_str"] / 100.0},
+                                                                                   "wide": {"ep": R["ep_wide"], "bin_size": db(), "xy": xy}})
+    seg = lambda: rng.choice([250_000, 300_000, 500_000, 1_000_000])
+    OPS["mean_psd"] = dict(fn=lambda r: nap.compute_mean_power_spectral_density, first="sig", sig=[("sig", REQ), ("interval_size", REQ), ("fs", None), ("overlap", 0.25), ("ep", None), ("full_range", False), ("time_unit", "s")],
+                           unit="time_unit", tpar=("interval_size",), recv=["reg_own", "regf_own", "reg", "reg_int16", "reg_float32", "reg_two", "reg_loaded", "regf"],
+                           opts={"seg": {"interval_size": seg()}, "ep": {"interval_size": seg(), "ep": R["ep_reg"]}, "fs": {"interval_size": seg(), "fs": 200.0, "ep": R["ep_reg"]}, "overlap": {"interval_size": seg(), "overlap": 0.5, "ep": R["ep_reg_two"]},
+                                 "full": {"interval_size": seg(), "full_range": True, "ep": R["ep_reg"]}, "all": {"interval_size": seg(), "fs": 100.0, "overlap": 0.0, "ep": R["ep_reg_two"], "full_range": True}})
+    return OPS
+
+
+def wd_sweep(nap, res, D, OPS, rng, seed, ds, tier):
+    """one-axis-at-a-time sweep: for every operation and every value of every axis (scalar form, call style, receiver, option set) one case with the other axes drawn at random, evaluated in s, ms and us and
+    compared with the reference call (Python floats in seconds, keywords) on the same receiver and options"""
+    refs = {}
+    heavy = {"decode_1d", "decode_2d", "mean_psd", "eta", "TsGroup.trial_count", "build_tensor"}
+    for op, sp in OPS.items():
+        axes = {"form": list(SCALAR_FORMS), "style": list(STYLES), "recv": list(sp["recv"]), "opt": list(sp["opts"])}
+        if tier == "quick" and op in heavy:           # the slow entry points: a seeded half of each axis per run
+            axes = {a: [v for i, v in enumerate(vs) if (i + seed + ds) % 2 == 0 or len(vs) < 3] for a, vs in axes.items()}
+        reps = (1 if op in heavy or ds else 2) if tier == "quick" else 3
+        for ax in ("form", "style", "recv", "opt"):
+            for val in axes[ax] * reps:
+                ch = {a: rng.choice(axes[a]) for a in axes}
+                ch[ax] = val
+                wd_case(nap, res, D, op, sp, ch, refs, seed, ds, ax)
+
+
+def wd_case(nap, res, D, op, sp, ch, refs, seed, ds, ax):
+    R = D["R"]
+    recv, form, style, optn = R[ch["recv"]], ch["form"], ch["style"], ch["opt"]
+    given_us = dict(sp["opts"][optn])
+    if sp.get("first"):
+        given_us[sp["first"]] = recv
+    if sp.get("tc"):
+        given_us[sp["tc"]] = D["tc1"](recv) if op == "decode_1d" else D["tc2"](recv)
+    fn = sp["fn"](recv)
+
+    def conv(u, form):
+        given, types = {}, []
+        for n, v in given_us.items():
+            if n in sp["tpar"] and v is not None:
+                one = lambda k: (lambda s_: s_ if s_ is not None else float(k / PER[u]))(scalar_form(k, u, form))
+                given[n] = tuple(one(k) for k in v) if isinstance(v, tuple) else one(v)
+                types += [_tname(x) for x in (given[n] if isinstance(v, tuple) else (given[n],))]
+            else:
+                given[n] = v
+        given[sp["unit"]] = u
+        return given, tuple(types)
+
+    rk = (op, ch["recv"], optn)
+    if rk not in refs:
+        g0, _ = conv("s", "float")
+        refs[rk] = _outcome(lambda: wd_invoke(fn, sp["sig"], g0, "kw"), flags=(False, False))[0]
+    ref = refs[rk]
+    res.count("wd_op=" + op)
+    res.count("wd_scalar_form=" + form)
+    res.count("wd_style=" + style)
+    res.count("wd_recv=" + ch["recv"])
+    seen = {}
+    for u in ("s", "ms", "us"):
+        given, types = conv(u, form)
+        documented = all(tn in DOCUMENTED_SCALARS for tn in types)
+        if form not in ("float",) and all(tn == "float" for tn in types):
+            res.count("wd_form_not_exact_in_unit")          # the form cannot hold these instants in this unit: nothing new to call
+            continue
+        out, ex = _outcome(lambda: wd_invoke(fn, sp["sig"], given, style))
+        if style == "twice":              # the same live receiver (and argument objects) used a second time
+            out2, _ = _outcome(lambda: wd_invoke(fn, sp["sig"], given, style))
+            if out2 != out:
+                res.violations.append({"key": {"op": op, "part": "same_object_twice", "unit": u}, "what": "the second identical call on the same live object gives another result",
+                                       "input": {"wd": [seed, ds], "op": op, "choice": ch, "types": types}})
+        res.case(("wd", op, ax, ch[ax], ds, u), nontrivial=not _is_exc(out))
+        if u == "s" and style == "kw":    # seconds are the default unit: leaving the unit out is the same call
+            g2 = {n: v for n, v in given.items() if n != sp["unit"]}
+            out3, _ = _outcome(lambda: wd_invoke(fn, sp["sig"], g2, "kw"))
+            if out3 != out:
+                res.violations.append({"key": {"op": op, "part": "default_unit_is_seconds"}, "what": "omitting the unit differs from passing 's'", "input": {"wd": [seed, ds], "op": op, "choice": ch, "types": types}})
+        seen.setdefault(types, []).append((u, _is_exc(out)))
+        if out == ref:
+            continue
+        if not documented and _is_exc(out) and isinstance(ex, CLEAN):
+            res.count("wd_undocumented_form_rejected")      # e.g. count(np.int64(..)): "bin_size should be float or int"
+            continue
+        trig = {"unsigned_scalar": any(tn.startswith("uint") for tn in types), "numpy_int_scalar": any(tn.startswith("int") and tn != "int" for tn in types), "float32_scalar": "float32" in types,
+                "zero_dim_array": any(tn.endswith("0d") for tn in types), "tuple_window": any(isinstance(given_us.get(n), tuple) for n in sp["tpar"])}
+        res.violations.append({"key": dict({"op": op, "part": "form_equivariance", "documented_scalar_types": documented, "raises": _is_exc(out)}, **trig),
+                               "what": "the call in %s (form %s, style %s) differs from the reference call in seconds on the same receiver" % (u, form, style),
+                               "input": {"wd": [seed, ds], "op": op, "choice": ch, "unit": u, "types": types, "given_us": {n: v for n, v in given_us.items() if isinstance(v, (int, tuple))}, "origin_us": D["origin"],
+                                         "exception": repr(ex)[:200] if ex is not None else None, "ref_raises": _is_exc(ref)}})
+    for types, outs in seen.items():
+        if len({r for _, r in outs}) > 1:
+            res.violations.append({"key": {"op": op, "part": "form_raises_in_some_units_only"}, "what": "arguments of the same types are rejected in some units and accepted in others",
+                                   "input": {"wd": [seed, ds], "op": op, "choice": ch, "types": types, "units": outs}})
+
+
+# ---- constructors -----------------------------------------------------------------------
+def _kept(ks, S):
+    return [k for k in sorted(ks) if S is None or any(s_ <= k <= e_ for s_, e_ in S)]
+
+
+def wd_constructors(nap, res, D, rng, seed, ds, tier):
+    """Ts / Tsd / TsdFrame / TsdTensor / IntervalSet / TsGroup built in s, ms, us from every container form, dtype, call style and support option: equal to the same call made in seconds with float64 arrays,
+    and (where the statement fixes it) storing exactly the canonical doubles of the instants, sorted, restricted to the support"""
+    R, o = D["R"], D["origin"]
+    ep_us = list(zip(D["s"], D["e"]))
+    supports = {"absent": ("absent", None), "None": (None, None), "ep": (R["ep"], ep_us), "wide": (R["ep_wide"], D["wide_us"])}
+    vecs = {"generic": list(D["t"]), "whole_s": sorted(o + 1_000_000 * k for k in rng.sample(range(0, 5), 4)), "quarter_s": sorted(o + 250_000 * k for k in rng.sample(range(0, 17), 6)),
+            "dup": sorted(D["t"][:5] + [D["t"][2]] * 2), "whole_ms": sorted(o + 1000 * k for k in rng.sample(range(0, 250), 5)), "tiny_us": sorted(o + k for k in rng.sample(range(0, 256), 5)),
+            "empty": [], "one": [D["t"][3]], "same": [D["t"][3]] * 3}
+    unsorted = {"generic_rev": list(D["t"])[::-1], "shuffled": rng.sample(D["t"], len(D["t"])), "whole_s_rev": sorted(o + 1_000_000 * k for k in rng.sample(range(0, 5), 4))[::-1],
+                "dup_unsorted": [D["t"][4], D["t"][1], D["t"][4], D["t"][0], D["t"][1]]}
+    dtypes = ("float64", "float32", "int64", "int32", "int16", "int8", "uint8", "uint16", "uint32", "uint64", "bool", "special", "zeros", "const")
+    reps = 1 if tier == "quick" else 3
+
+    def data_for(n, dt, shape):
+        base = np.asarray([rng.randrange(0, 100) for _ in range(n * int(np.prod(shape)))], dtype=np.float64).reshape((n,) + shape)
+        if dt == "special":
+            flat = base.reshape(-1)
+            for i, sv in zip(range(0, flat.size, max(1, flat.size // 3)), (np.nan, np.inf, -np.inf)):
+                flat[i] = sv
+            return base
+        if dt == "zeros":
+            return np.zeros_like(base)
+        if dt == "const":
+            return np.full_like(base, 7.0)
+        return base.astype(dt)
+
+    def viol(cls, part, what, u, ch, extra=None):
+        res.violations.append({"key": {"op": cls, "part": part, "unit": u, "time_form": ch.get("form"), "unsorted": ch.get("vec") in unsorted},
+                               "what": what, "input": dict({"wd": [seed, ds], "class": cls, "choice": {k: (v if isinstance(v, (str, int, type(None))) else str(v)) for k, v in ch.items()}, "origin_us": o}, **(extra or {}))})
+
+    # -- time series classes
+    CLS = {"Ts": (nap.Ts, [("t", REQ), ("time_units", "s"), ("time_support", None)], None),
+           "Tsd": (nap.Tsd, [("t", REQ), ("d", None), ("time_units", "s"), ("time_support", None), ("load_array", True)], ()),
+           "TsdFrame": (nap.TsdFrame, [("t", REQ), ("d", None), ("time_units", "s"), ("time_support", None), ("columns", None), ("load_array", True), ("metadata", None)], (2,)),
+           "TsdTensor": (nap.TsdTensor, [("t", REQ), ("d", REQ), ("time_units", "s"), ("time_support", None), ("load_array", True)], (2, 2))}
+    for cls, (ctor, sig, shape) in CLS.items():
+        vnames = list(vecs) + (list(unsorted) if cls == "Ts" else [])
+        # Tsd(t=<pandas.Series>, d=...) takes times AND data from the Series (documented alternative form): a Series is not a form of `t` alone there
+        axes = {"vec": vnames, "form": [f for f in ARRAY_FORMS if not (cls == "Tsd" and f == "series")] + (["pandas"] if cls in ("Tsd", "TsdFrame") else []) + (["scalar"] if cls == "Ts" else []), "style": ["kw", "kw_all", "pos", "mixed", "twice"],
+                "support": list(supports), "dtype": list(dtypes) if shape is not None else ["-"], "extra": ["-"] + (["columns_str", "columns_int", "columns_meta", "d_list", "load_array_False"] if cls == "TsdFrame" else
+                                                                                                         ["d_list", "d_tuple", "load_array_False"] if cls == "Tsd" else ["d_list"] if cls == "TsdTensor" else [])}
+        for ax in axes:
+            for val in axes[ax] * reps:
+                ch = {a: rng.choice(axes[a]) for a in axes}
+                ch[ax] = val
+                if ch["form"] in ("scalar",) and ax != "vec":
+                    ch["vec"] = "one"
+                if ch["vec"] in ("one", "same", "empty") and ch["support"] in ("absent", "None") and ax != "support":
+                    ch["support"] = "wide"            # a single distinct timestamp has an empty default support (known quirk): not what is tested here
+                ks = (vecs.get(ch["vec"]) or unsorted.get(ch["vec"]) or [])
+                Sobj, Sus = supports[ch["support"]]
+                n = len(ks)
+                d = data_for(n, ch["dtype"], shape) if shape is not None else None
+                dform = d
+                if ch["form"] == "pandas" or not n:
+                    pass                              # the pandas forms carry the data themselves; an empty nested list has no second dimension
+                elif ch["extra"] == "d_list":
+                    dform = d.tolist()
+                elif ch["extra"] == "d_tuple":
+                    dform = tuple(d.tolist())
+                kw = {}
+                if ch["extra"] == "columns_str":
+                    kw["columns"] = ["b", "a"]
+                elif ch["extra"] == "columns_int":
+                    kw["columns"] = [7, 3]
+                elif ch["extra"] == "columns_meta":
+                    kw.update(columns=["b", "a"], metadata={"area": ["p", "q"]})
+                elif ch["extra"] == "load_array_False":
+                    kw["load_array"] = False
+                if not isinstance(Sobj, str):
+                    kw["time_support"] = Sobj
+
+                def build(u, tform, style, pandas_form=False):
+                    given = dict(kw)
+                    if pandas_form:
+                        x = np.asarray(ks, dtype=np.float64) / PER[u]
+                        given["t"] = pd.Series(d, index=x) if cls == "Tsd" else pd.DataFrame(d, index=x, columns=kw.get("columns", [0, 1]))
+                        given.pop("columns", None)
+                    else:
+                        given["t"] = tform
+                        if shape is not None:
+                            given["d"] = dform
+                    given["time_units"] = u
+                    return wd_invoke(ctor, sig, given, style)
+                ref, _ = _outcome(lambda: build("s", _cd(ks), "kw"), flags=(False, False))
+                res.count("wd_ctor=" + cls)
+                res.count("wd_time_form=" + ch["form"])
+                res.count("wd_vec=" + ch["vec"])
+                res.count("wd_support=" + ch["support"])
+                if shape is not None:
+                    res.count("wd_data_dtype=" + ch["dtype"])
+                for u in ("s", "ms", "us"):
+                    if ch["form"] == "pandas":
+                        tform = "pandas"
+                    elif ch["form"] == "scalar":
+                        tform = scalar_form(ks[0], u, rng.choice(SCALAR_FORMS)) if n == 1 else None
+                        if isinstance(tform, np.ndarray):
+                            tform = None              # a 0-d array is not a documented `t`
+                    else:
+                        tform = array_form(nap, ks, u, ch["form"])
+                    if tform is None:
+                        res.count("wd_form_not_exact_in_unit")
+                        continue
+                    out, ex = _outcome(lambda: build(u, tform, ch["style"], pandas_form=ch["form"] == "pandas"))
+                    res.case(("wd_ctor", cls, ax, val, ds, u), nontrivial=not _is_exc(out))
+                    if ch["style"] == "twice":        # the same input containers used for a second object
+                        out2, _ = _outcome(lambda: build(u, tform, "kw", pandas_form=ch["form"] == "pandas"))
+                        if out2 != out:
+                            viol(cls, "same_object_twice", "building a second object from the same containers gives another result", u, ch)
+                    if out != ref:
+                        viol(cls, "form_equivariance", "%s built in %s from form %s differs from the same call in seconds with float64 arrays" % (cls, u, ch["form"]), u, ch,
+                             {"ks_us": ks, "exception": repr(ex)[:200] if ex is not None else None, "ref_raises": _is_exc(ref)})
+                        continue
+                    if _is_exc(out):
+                        continue
+                    # the statement itself: stored = canonical doubles of the instants, sorted, (restricted to the support), values follow their instants, dtype kept
+                    obj = build(u, tform, "kw", pandas_form=ch["form"] == "pandas")
+                    kept = _kept(ks, Sus)
+                    ok = np.array_equal(np.asarray(obj.t), _cd(kept)) and np.asarray(obj.t).dtype == np.float64
+                    if ok and Sus is not None:
+                        ok = np.array_equal(obj.time_support.values, np.stack([_cd([a for a, _ in Sus]), _cd([b_ for _, b_ in Sus])], 1)) if n else True
+                    elif ok and n and min(ks) < max(ks):
+                        ok = np.array_equal(obj.time_support.values, np.stack([_cd([min(ks)]), _cd([max(ks)])], 1))
+                    if ok and shape is not None and ks == sorted(ks):
+                        mask = np.asarray([Sus is None or any(s_ <= k <= e_ for s_, e_ in Sus) for k in ks], dtype=bool)
+                        want = np.asarray(dform)[mask] if n else np.asarray(dform).reshape((0,) + shape)      # list / tuple data: numpy's own dtype for that container
+                        got = np.asarray(obj.values)
+                        ok = got.shape == want.shape and got.dtype == want.dtype and got.tobytes() == want.tobytes()
+                    if not ok:
+                        viol(cls, "sorted_rounded", "%s(time_units=%s) does not store the sorted seconds rounded to 1 ns (restricted to the support, values and dtype kept)" % (cls, u), u, ch, {"ks_us": ks})
+
+    # -- IntervalSet
+    def canon_iv(m, step, lo):
+        pts = sorted(o + lo + step * k for k in rng.sample(range(0, 40), 2 * m))
+        return pts[0::2], pts[1::2]
+    ivs = {"canon3": (list(D["s"]), list(D["e"])), "whole_s": (lambda p: (p[0::2], p[1::2]))(sorted(o + 1_000_000 * k for k in rng.sample(range(0, 9), 6))), "quarter_s": canon_iv(3, 250_000, 0),
+           "tiny_us": (lambda p: (p[0::2], p[1::2]))(sorted(o + k for k in rng.sample(range(0, 256), 4))), "whole_ms": canon_iv(2, 1000, 0), "one": ([D["s"][0]], [D["e"][-1]]), "empty": ([], []), "many": canon_iv(8, 50_000, -500_000)}
+    messy = {"unsorted": (list(D["s"])[::-1], list(D["e"])[::-1]), "overlapping": ([o, o + 500_000, o + 2_000_000], [o + 1_000_000, o + 1_500_000, o + 3_000_000]),
+             "touching": ([o, o + 1_000_000], [o + 1_000_000, o + 2_000_000]), "end_before_start": ([o + 1_000_000, o + 2_000_000], [o, o + 3_000_000]), "whole_s_unsorted": ([o + 3_000_000, o], [o + 4_000_000, o + 1_000_000])}
+    isig = [("start", REQ), ("end", None), ("time_units", "s"), ("metadata", None)]
+    axes = {"vec": list(ivs) + list(messy), "form": list(ARRAY_FORMS) + ["mixed_forms", "pairs2d", "pairs2d_int", "pairs2d_uint", "pairs_list_tuples", "pairs_list_lists", "single_pair", "scalars", "dataframe", "dataframe_meta", "views", "iset"],
+            "style": ["kw", "kw_all", "pos", "mixed", "twice"], "meta": ["-", "dict", "DataFrame"]}
+    for ax in axes:
+        for val in axes[ax] * reps:
+            ch = {a: rng.choice(axes[a]) for a in axes}
+            ch[ax] = val
+            if ch["form"] in ("single_pair", "scalars") and ax != "vec":
+                ch["vec"] = "one"
+            ss, ee = ivs.get(ch["vec"]) or messy[ch["vec"]]
+            n = len(ss)
+            meta = None
+            if ch["meta"] != "-" and ch["form"] not in ("dataframe", "dataframe_meta", "iset"):
+                meta = {"lab": ["x", "y", "z", "x", "y", "z", "x", "y"][:n], "w": list(range(n))}
+                meta = pd.DataFrame(meta) if ch["meta"] == "DataFrame" else meta
+
+            def args(u, form):
+                af = lambda ks, f: array_form(nap, ks, u, f)
+                x = lambda ks: np.asarray(ks, dtype=np.float64) / PER[u]
+                if form in ARRAY_FORMS:
+                    a, b_ = af(ss, form), af(ee, form)
+                    if form in ("tsindex", "t_attr") and (a is None or b_ is None):
+                        return None
+                    return None if a is None or b_ is None else {"start": a, "end": b_}
+                if form == "mixed_forms":
+                    fa, fb = rng.choice(["list", "tuple", "series", "ndarray", "list_int", "int64", "uint16"]), rng.choice(["ndarray", "list", "float32", "uint32", "index"])
+                    a, b_ = af(ss, fa), af(ee, fb)
+                    return {"start": a if a is not None else x(ss), "end": b_ if b_ is not None else x(ee)}
+                if form in ("pairs2d", "pairs2d_int", "pairs2d_uint"):
+                    if not n:
+                        return None               # an EMPTY iterable of pairs is rejected in every unit ("provide a list of start-end pairs"): not a form of the empty set
+                    p = np.stack([x(ss), x(ee)], 1)
+                    if form != "pairs2d":
+                        if any(k % IPER[u] for k in ss + ee) or (form == "pairs2d_uint" and n and min(ss + ee) < 0):
+                            return None
+                        p = p.astype(np.int64 if form == "pairs2d_int" else np.uint64)
+                    return {"start": p}
+                if form == "pairs_list_tuples":
+                    return {"start": [(float(a), float(b_)) for a, b_ in zip(x(ss), x(ee))]} if n else None
+                if form == "pairs_list_lists":
+                    return {"start": [[float(a), float(b_)] for a, b_ in zip(x(ss), x(ee))]} if n else None
+                if form == "single_pair":
+                    return {"start": (float(x(ss)[0]), float(x(ee)[0]))} if n == 1 else None
+                if form == "scalars":
+                    if n != 1:
+                        return None
+                    f1, f2 = rng.choice(SCALAR_FORMS), rng.choice(SCALAR_FORMS)
+                    a, b_ = scalar_form(ss[0], u, f1), scalar_form(ee[0], u, f2)
+                    return {"start": a if a is not None else float(x(ss)[0]), "end": b_ if b_ is not None else float(x(ee)[0])}
+                if form in ("dataframe", "dataframe_meta"):
+                    df = pd.DataFrame({"start": x(ss), "end": x(ee)})
+                    if form == "dataframe_meta":
+                        df["lab"] = ["x", "y", "z", "x", "y", "z", "x", "y"][:n]
+                    return {"start": df}
+                if form == "views":               # start and end are views of one buffer
+                    p = np.stack([x(ss), x(ee)], 1) if n else np.empty((0, 2))
+                    return {"start": p[:, 0], "end": p[:, 1]}
+                if form == "iset":                # an IntervalSet holds seconds by construction
+                    return {"start": nap.IntervalSet(start=_cd(ss), end=_cd(ee))} if u == "s" else None
+                raise ValueError(form)
+
+            def build(u, a, style):
+                given = dict(a)
+                if meta is not None:
+                    given["metadata"] = meta
+                given["time_units"] = u
+                return wd_invoke(nap.IntervalSet, isig, given, style)
+            if ch["form"] == "dataframe_meta":
+                ref, _ = _outcome(lambda: build("s", {"start": pd.DataFrame({"start": _cd(ss), "end": _cd(ee), "lab": ["x", "y", "z", "x", "y", "z", "x", "y"][:n]})}, "kw"), flags=(False, False))
+            else:
+                ref, _ = _outcome(lambda: build("s", {"start": _cd(ss), "end": _cd(ee)}, "kw"), flags=(False, False))
+            res.count("wd_ctor=IntervalSet")
+            res.count("wd_iset_form=" + ch["form"])
+            res.count("wd_iset_vec=" + ch["vec"])
+            for u in ("s", "ms", "us"):
+                a = args(u, ch["form"])
+                if a is None:
+                    res.count("wd_form_not_exact_in_unit")
+                    continue
+                out, ex = _outcome(lambda: build(u, a, ch["style"]))
+                res.case(("wd_ctor", "IntervalSet", ax, val, ds, u), nontrivial=not _is_exc(out))
+                if ch["style"] == "twice":
+                    out2, _ = _outcome(lambda: build(u, a, "kw"))
+                    if out2 != out:
+                        viol("IntervalSet", "same_object_twice", "building a second IntervalSet from the same containers gives another result", u, ch)
+                if out != ref:
+                    viol("IntervalSet", "form_equivariance", "IntervalSet built in %s from form %s differs from the same call in seconds with float64 arrays" % (u, ch["form"]), u, ch,
+                         {"s_us": ss, "e_us": ee, "exception": repr(ex)[:200] if ex is not None else None, "ref_raises": _is_exc(ref)})
+                elif not _is_exc(out) and ch["vec"] in ivs:
+                    obj = build(u, a, "kw")
+                    if not np.array_equal(np.asarray(obj.values), np.stack([_cd(ss), _cd(ee)], 1) if n else np.empty((0, 2))):
+                        viol("IntervalSet", "sorted_rounded", "IntervalSet(time_units=%s) does not store the seconds rounded to 1 ns" % u, u, ch, {"s_us": ss, "e_us": ee})
+
+    # -- TsGroup
+    members = [list(D["t"]), list(D["t"][::2]), list(D["t"][1::3])]
+    keysets = {"ints": [0, 3], "unsorted": [7, 2, 5], "strings": ["12", "3"], "floats": [1.0, 4.0], "iterable": None, "mixed_keys": ["10", 2, 7.0], "one": [5]}
+    gsig = [("data", REQ), ("time_support", None), ("time_units", "s"), ("bypass_check", False), ("metadata", None)]
+    axes = {"keys": list(keysets), "form": [f for f in ARRAY_FORMS if f != "tuple"], "style": ["kw", "kw_all", "pos", "mixed", "twice"], "support": ["absent", "None", "ep", "wide"], "bypass": [False, True], "meta": ["-", "dict"],
+            "members": ["sorted", "unsorted", "with_empty", "with_Ts_object", "all_empty", "whole_s", "no_member"]}
+    for ax in axes:
+        for val in axes[ax] * reps:
+            ch = {a: rng.choice(axes[a]) for a in axes}
+            ch[ax] = val
+            ks_list = [list(m) for m in members]
+            if ch["members"] == "unsorted":
+                ks_list = [m[::-1] for m in ks_list]
+            elif ch["members"] == "with_empty":
+                ks_list[1] = []
+            elif ch["members"] == "all_empty":
+                ks_list = [[], [], []]
+            elif ch["members"] == "whole_s":
+                ks_list = [sorted(o + 1_000_000 * k for k in rng.sample(range(0, 5), 3)) for _ in range(3)]
+            keys = keysets[ch["keys"]]
+            nk = 2 if keys is None else len(keys)
+            if ch["members"] == "no_member":
+                nk, keys = 0, []
+            ks_list = ks_list[:nk]
+            if ch["members"] in ("all_empty", "no_member") and ch["support"] in ("absent", "None") and ax != "support":
+                ch["support"] = "wide"
+            Sobj, Sus = supports[ch["support"]]
+            meta = {"lab": ["x", "y", "z"][:nk]} if ch["meta"] == "dict" else None
+
+            def build(u, mform, style):
+                vals = []
+                for i, ks in enumerate(ks_list):
+                    if ch["members"] == "with_Ts_object" and i == 0:
+                        vals.append(nap.Ts(t=_cd(ks)))                      # a Ts holds seconds whatever time_units says
+                    else:
+                        a = mform(ks, u)
+                        if a is None:
+                            return None
+                        vals.append(a)
+                data = vals if keysets[ch["keys"]] is None and nk else dict(zip(keys, vals))
+                given = {"data": data, "time_units": u}
+                if not isinstance(Sobj, str):
+                    given["time_support"] = Sobj
+                if ch["bypass"]:
+                    given["bypass_check"] = True
+                if meta is not None:
+                    given["metadata"] = meta
+                return lambda: wd_invoke(nap.TsGroup, gsig, given, style)
+            ref, _ = _outcome(build("s", lambda ks, u: _cd(ks), "kw"), flags=(False, False))
+            res.count("wd_ctor=TsGroup")
+            res.count("wd_group_keys=" + ch["keys"])
+            res.count("wd_group_members=" + ch["members"])
+            res.count("wd_group_member_form=" + ch["form"])
+            for u in ("s", "ms", "us"):
+                thunk = build(u, lambda ks, u_: array_form(nap, ks, u_, ch["form"]), ch["style"])
+                if thunk is None:
+                    res.count("wd_form_not_exact_in_unit")
+                    continue
+                out, ex = _outcome(thunk)
+                res.case(("wd_ctor", "TsGroup", ax, str(val), ds, u), nontrivial=not _is_exc(out))
+                if ch["style"] == "twice":
+                    out2, _ = _outcome(build(u, lambda ks, u_: array_form(nap, ks, u_, ch["form"]), "kw"))
+                    if out2 != out:
+                        viol("TsGroup", "same_object_twice", "building a second TsGroup from containers of the same form gives another result", u, ch)
+                if out != ref:
+                    viol("TsGroup", "form_equivariance", "TsGroup built in %s from members of form %s differs from the same call in seconds with float64 arrays" % (u, ch["form"]), u, ch,
+                         {"members_us": ks_list, "exception": repr(ex)[:200] if ex is not None else None, "ref_raises": _is_exc(ref)})
+                elif not _is_exc(out):
+                    g = thunk()
+                    want_keys = sorted(int(float(k)) for k in keys) if keysets[ch["keys"]] is not None or not nk else list(range(nk))
+                    order = sorted(range(nk), key=lambda i: int(float(keys[i]))) if keysets[ch["keys"]] is not None or not nk else list(range(nk))
+                    ok = [int(k) for k in g.keys()] == want_keys
+                    # members: sorted canonical doubles restricted to the group's support (passed, or the union of the members' default supports = their extent)
+                    for k, i in zip(want_keys, order):
+                        if not ok:
+                            break
+                        S_eff = Sus                           # None: every member lies inside the union of the default supports
+                        if ch["bypass"] and ch["members"] == "with_Ts_object" and i == 0:
+                            S_eff = None                      # bypass_check=True: a Ts object is taken as it is
+                        ok = np.array_equal(np.asarray(g[k].t), _cd(_kept(ks_list[i], S_eff)))
+                    if not ok:
+                        viol("TsGroup", "sorted_rounded", "TsGroup(time_units=%s) does not store for every key the sorted seconds rounded to 1 ns of its member" % u, u, ch, {"members_us": ks_list, "keys": [str(k) for k in (keys or [])]})
+
+
+# ---- output points on every class / history ----------------------------------------------
+def _out_ok(name, u, raw, ks):
+    """the existing output oracle (check_outputs): exact in seconds and for the integer microsecond index, within the PROVED 0.3 ns otherwise (0.5 ns for tot_length)"""
+    fac = {"s": 1.0, "ms": 1e3, "us": 1e6}[u]
+    ks = np.asarray(ks, dtype=np.float64)
+    tol_s = 0.5e-9 if name.endswith("tot_length") else 0.3e-9
+    raw = np.asarray(raw)
+    got = raw.astype(np.float64).ravel()
+    want = (ks * 1000) / 1e9 if u == "s" else ks / (1e6 / fac)
+    if u == "s" and not name.endswith("tot_length"):
+        return got.shape == want.shape and bool(np.all(got == want)), got, want
+    if u == "us" and name.endswith("as_units"):
+        return got.shape == want.shape and raw.dtype.kind == "i" and bool(np.all(got == want)), got, want
+    return got.shape == want.shape and bool(np.all(np.abs(got - want) <= tol_s * fac)), got, want
+
+
+def _stored_us(t):
+    """the integer microseconds behind stored seconds; None when they are not on the lattice"""
+    t = np.asarray(t, dtype=np.float64)
+    k = np.rint(t * 1e6).astype(np.int64)
+    return k if np.array_equal((k.astype(np.float64) * 1000) / 1e9, t) else None
+
+
+def wd_outputs(nap, res, D, seed, ds):
+    """times / start_time / end_time / as_units / in_units / tot_length on receivers of every class, dtype and history, unit given positionally, by keyword, and left out (seconds)"""
+    R = D["R"]
+    out = []
+    for name in D["TSS"] + D["TSDS"] + D["FRAMES"] + D["TENSORS"] + ["reg_two", "reg_loaded", "regf", "regt"]:
+        x = R[name]
+        ks = _stored_us(x.t)
+        if ks is None:
+            res.disagreements.append({"op": "wd_outputs", "what": "harness: receiver %s is not on the microsecond lattice" % name})
+            continue
+        pts = {"times": (lambda u: x.times(u), lambda u: x.times(units=u), lambda: x.times(), ks), "in_units": (lambda u: x.index.in_units(u), lambda u: x.index.in_units(time_units=u), lambda: x.index.in_units(), ks)}
+        if len(ks):
+            pts["start_time"] = (lambda u: np.array([x.start_time(u)]), lambda u: np.array([x.start_time(units=u)]), lambda: np.array([x.start_time()]), ks[:1])
+            pts["end_time"] = (lambda u: np.array([x.end_time(u)]), lambda u: np.array([x.end_time(units=u)]), lambda: np.array([x.end_time()]), ks[-1:])
+        if hasattr(x, "as_units"):
+            pts["as_units"] = (lambda u: x.as_units(u).index.values, lambda u: x.as_units(units=u).index.values, lambda: x.as_units().index.values, ks)
+        for pt, (fpos, fkw, fdef, want) in pts.items():
+            for u in ("s", "ms", "us"):
+                for style, f in (("pos", lambda: fpos(u)), ("kw", lambda: fkw(u))) + ((("default", fdef),) if u == "s" else ()):
+                    res.case(("wd_out", pt, name, ds, u, style), nontrivial=True)
+                    res.count("wd_output=" + pt)
+                    try:
+                        ok, got, exp = _out_ok(pt, u, f(), want)
+                    except Exception:             # noqa: BLE001
+                        ok, got, exp = False, np.array([]), np.array([])
+                        res.count("wd_output_raises")
+                    if not ok:
+                        out.append({"key": {"op": type(x).__name__ + "." + pt, "part": "output_units", "unit": u, "style": style}, "what": "value returned in %s is not the stored instant x factor" % u,
+                                    "input": {"wd": [seed, ds], "receiver": name}, "impl": got[:5].tolist(), "expected": exp[:5].tolist()})
+    for name in D["EPS"]:
+        ep = R[name]
+        ks = _stored_us(ep.values.ravel())
+        if ks is None:
+            res.disagreements.append({"op": "wd_outputs", "what": "harness: IntervalSet %s is not on the microsecond lattice" % name})
+            continue
+        tot = [int(np.sum(ks[1::2] - ks[0::2]))]
+        pts = {"ep.as_units": (lambda u: ep.as_units(u).values, lambda u: ep.as_units(units=u).values, lambda: ep.as_units().values, ks)}
+        if len(ep) <= 8:
+            pts["tot_length"] = (lambda u: np.array([ep.tot_length(u)]), lambda u: np.array([ep.tot_length(time_units=u)]), lambda: np.array([ep.tot_length()]), tot)
+        for pt, (fpos, fkw, fdef, want) in pts.items():
+            for u in ("s", "ms", "us"):
+                for style, f in (("pos", lambda: fpos(u)), ("kw", lambda: fkw(u))) + ((("default", fdef),) if u == "s" else ()):
+                    res.case(("wd_out", pt, name, ds, u, style), nontrivial=True)
+                    res.count("wd_output=" + pt)
+                    try:
+                        ok, got, exp = _out_ok(pt, u, f(), want)
+                    except Exception:             # noqa: BLE001
+                        ok, got, exp = False, np.array([]), np.array([])
+                    if not ok:
+                        out.append({"key": {"op": pt, "part": "output_units", "unit": u, "style": style}, "what": "value returned in %s is not the stored instant x factor" % u,
+                                    "input": {"wd": [seed, ds], "receiver": name}, "impl": got[:5].tolist(), "expected": exp[:5].tolist()})
+    return out
+
+
+def wd_ns_rounding(nap, res, rng, tier):
+    """stored timestamps are SECONDS ROUNDED TO 1 NANOSECOND, through the constructors, for arbitrary doubles within +/-1e5 s (negative ones included): exact rational oracle; a value whose exact x*1e9 lies within 2^-5 of a
+    half-integer may go either way in floating point (np.around multiplies first) and is counted as float_ambiguous when it does"""
+    from fractions import Fraction
+    n = 150 if tier == "quick" else 3000
+    xs = sorted({rng.choice([1, -1]) * rng.choice([rng.uniform(0, 1e-6), rng.uniform(0, 1.0), rng.uniform(0, 1e3), rng.uniform(0, 1e5)]) for _ in range(n)})
+    xa = np.asarray(xs, dtype=np.float64)
+    wide = nap.IntervalSet(start=-2e5, end=2e5)
+    got = {"Ts": nap.Ts(t=xa).t, "Tsd": nap.Tsd(t=xa, d=np.arange(len(xa)), time_support=wide).t, "TsdFrame_list": nap.TsdFrame(t=xa.tolist(), d=np.zeros((len(xa), 1))).t,
+           "IntervalSet.start": nap.IntervalSet(start=xa, end=xa + 1e6).values[:, 0] if len(xa) else []}
+    for cls, st in got.items():
+        res.count("wd_ns_rounding_values", len(xs))
+        for x, v in zip(xs, np.asarray(st)):
+            res.evaluations += 1
+            q = Fraction(x) * 10**9
+            lo = q.numerator // q.denominator
+            frac = q - lo
+            nearest = lo if frac < Fraction(1, 2) else lo + 1
+            if v == nearest / 1e9:
+                continue
+            if abs(frac - Fraction(1, 2)) <= Fraction(1, 32) and v in (lo / 1e9, (lo + 1) / 1e9):
+                res.float_ambiguous += 1
+                continue
+            res.violations.append({"key": {"op": cls, "part": "rounded_to_ns", "negative": x < 0}, "what": "the stored timestamp is not the given seconds rounded to 1 ns", "input": {"x": float(x).hex(), "x_repr": repr(x)},
+                                   "impl": repr(float(v)), "expected": repr(nearest / 1e9)})
+            break
+
+
+def widened(nap, res, tier, seed):
+    import shutil
+    import tempfile
+    nsets = 2 if tier == "quick" else 14
+    tmp = tempfile.mkdtemp(prefix="c09_wd_")
+    try:
+        for ds in range(nsets):
+            rng = random.Random(seed * 977 + 31 * ds + 5)
+            # every second data set runs under a non-default setting of the two suppress_* flags (the references always under the defaults)
+            _WD_FLAGS[0] = (False, False) if ds % 2 == 0 else [(True, False), (False, True), (True, True)][(seed + ds // 2) % 3]
+            res.count("wd_flags=%s" % (_WD_FLAGS[0],))
+            D = wd_data(nap, rng, tmp)
+            before = {k: canon(v) for k, v in D["R"].items()}
+            OPS = wd_ops(nap, D, rng)
+            wd_sweep(nap, res, D, OPS, rng, seed, ds, tier)
+            wd_constructors(nap, res, D, rng, seed, ds, tier)
+            for v in wd_outputs(nap, res, D, seed, ds):
+                res.violations.append(v)
+            for k, v in D["R"].items():           # every receiver was used by many calls: none may have changed
+                if k in before and canon(v) != before[k]:
+                    res.violations.append({"key": {"op": "receiver", "part": "live_object_changed"}, "what": "a receiver / argument object changed while being used", "input": {"wd": [seed, ds], "receiver": k}})
+            if ds == 0:
+                res.sample({"wd_origin_us": D["origin"], "wd_t_us": D["t"][:6], "wd_ops": sorted(OPS), "wd_receivers": sorted(D["R"])[:40]})
+        wd_ns_rounding(nap, res, random.Random(seed * 13 + 7), tier)
+    finally:
+        _WD_FLAGS[0] = (False, False)
+        shutil.rmtree(tmp, ignore_errors=True)
+
+
 def run(res, tier, seed):
     nap = _nap()
     warnings.simplefilter("ignore")
@@ -352,6 +1303,22 @@ def run(res, tier, seed):
                 "constructor in every unit stores the canonical double of each instant, sorted; under all 4 settings of the two suppress_* flags, with list/tuple inputs so "
                 "that the guarded warnings are reachable; float layer: PrimFloat model vs implementation bit-exact on random/lattice doubles. non-trivial = an entry point "
                 "evaluated on one data set with at least one unit not raising; distinct = (entry point, data set)" % len(entry_points(nap)))
+    res.rule += (" || WIDENED FORMS (one axis at a time, the other axes drawn with the seeded rng, each case in s, ms and us against the reference call = Python floats in seconds, keywords, on the same receiver and options; "
+                 "origins 0, -2 s (straddling 0), -50 s, 1e3 s, 9.999e4 s). "
+                 "Axis 1 (data dtype): receivers and constructor data in float64/float32/int64/int32/int16/int8/uint8..uint64/bool, data holding NaN/+inf/-inf, constant and zero data; results compared with their dtype. "
+                 "Axis 2 (form of time arguments): scalars as Python float/int, np.float64, np.float32, np.int8..np.uint64, 0-d array (a form is used in a unit only when it holds the instant exactly; Python float/int/np.float64 "
+                 "must give the reference result, any other scalar type must give it or be rejected with TypeError/ValueError/IOError/RuntimeError/AssertionError, and identically typed arguments may not be rejected in some units only); "
+                 "time arrays as ndarray, list, tuple, list of ints, list of numpy scalars, pandas Series / Index, float32/float16/int64..uint8 arrays, strided / read-only / Fortran-column views, object arrays, another object's TsIndex and .t, "
+                 "pandas Series / DataFrame as the whole Tsd / TsdFrame, IntervalSet from pairs (2-d float/int/uint arrays, lists of tuples / lists), a single pair, scalars, DataFrame (+metadata columns), views of one buffer, an IntervalSet. "
+                 "Axis 3 (call style): keywords, every parameter by keyword with the documented defaults (None included) spelled out, positional with the defaults spelled out, required positional + keywords, the unit left out (= seconds); "
+                 "every optional parameter at its default and at non-default values combined (dtype, ep, align, padding_value, norm, reverse, size_factor, windowsize, fs, overlap, full_range, feature(s), bypass_check, metadata, columns, load_array). "
+                 "Axis 4: s/ms/us everywhere. Axis 5 (placement): negative times, sets straddling 0, 1e5 s offsets, bounds / thresholds / gaps / windows exactly on samples, interval durations and gaps; arbitrary (sub-microsecond) doubles "
+                 "through the constructors against an exact rational round-to-1-ns oracle. Axis 6 (degenerate): empty series / frames / tensors, one sample, all timestamps equal (explicit support), duplicates, empty / one / many intervals, "
+                 "intervals holding zero or one sample, empty TsGroup, groups with empty members, keys not 0..n-1 / unsorted / multi-digit strings / floats / mixed / from an iterable. "
+                 "Axis 7 (classes): every operation on Ts, Tsd, TsdFrame (string / unsorted integer column labels, metadata), TsdTensor, TsGroup (of Ts, of Tsd), pairs of groups, dict and count-frame inputs of decode, IntervalSet with metadata. "
+                 "Axis 8 (histories): receivers obtained by restrict / slice / fancy index / get / arithmetic / numpy functions / set operations / save+load, a default support, bypass_check=True, t and d sharing one buffer; every call style "
+                 "'twice' repeats the call on the same live objects, and every receiver is compared with its state before the sweep. Every second data set runs under a non-default setting of the two suppress_* flags (references under the defaults). "
+                 "Output points (times/start_time/end_time/as_units/in_units/tot_length) on every such receiver with the unit positional, by keyword and left out, against the stored instants with the existing bounds.")
     E = entry_points(nap)
     O = out_points(nap)
     rng = random.Random(seed * 101 + 9)
@@ -415,6 +1382,7 @@ def run(res, tier, seed):
             res.violations.append({"key": {"op": "format_timestamps", "part": "lattice"}, "what": "the same microsecond-lattice instant is stored differently depending on its unit",
                                    "input": {"k_us": k}, "impl": [float(x).hex(), float(y).hex(), float(z).hex()], "expected": float(w).hex()})
             break
+    widened(nap, res, tier, seed)
     float_layer(res, tier, seed)
     table_coverage(res, E, O)
     for name in E:
@@ -462,5 +1430,17 @@ def replay(payload):
             for x in bad:
                 print(x["what"], "impl", x["impl"], "expected", x["expected"])
             return 1 if bad else 0
+    if "wd" in inp or "x" in inp:
+        # widened-form cases draw every axis from the seeded generator: re-run the widened sweep of that seed and look for the same key
+        seed = inp["wd"][0] if "wd" in inp else int(os.environ.get("VERIF_SEED", "0") or 0)
+        for tier in ("quick", "thorough"):
+            r = C.Result()
+            widened(nap, r, tier, seed)
+            hit = [x for x in r.violations if x.get("key") == v.get("key")]
+            if hit:
+                print("reproduced (%s tier):" % tier, hit[0]["what"], hit[0]["input"])
+                return 1
+        print("not reproduced", v.get("key"))
+        return 0
     print("replay input", inp)
     return 1
